@@ -127,7 +127,11 @@ class Impl:
         A = specgen.api()
         o = s['op']
         if o == 'newfile':
-            self.df = DLISFile(set_identifier=s['ident'], sul_sequence_number=s['seq'], max_record_length=s['vrl'])
+            if s.get('via_sul'):
+                from dliswriter.logical_record.misc import StorageUnitLabel
+                self.df = DLISFile(storage_unit_label=StorageUnitLabel(s['ident'], sequence_number=s['seq'], max_record_length=s['vrl']))
+            else:
+                self.df = DLISFile(set_identifier=s['ident'], sul_sequence_number=s['seq'], max_record_length=s['vrl'])
             self.lfs, self.objs, self.sul, self.pending_data, self.chan_specs = [], [], s, {}, {}
             return None
         if o == 'hc_enter':
@@ -302,7 +306,7 @@ def program_trees(program, outs):
 
 def from_spec(spec, write=True):
     """specgen specification -> program."""
-    prog = [{'op': 'newfile', **spec['sul']}]
+    prog = [{'op': 'newfile', **spec['sul'], 'via_sul': (sum(map(ord, repr(spec['sul']))) + len(spec['lfs'][0]['ops'])) % 3 == 0}]
     for li, lf in enumerate(spec['lfs']):
         prog.append({'op': 'lf', 'fh_id': specgen.r_str(lf['fh_id']), 'fh_seq': specgen.r_int(lf['fh_seq'])})
         for op in lf['ops']:
